@@ -44,6 +44,9 @@ ZOO = [
     'import deal\n\n@deal.post(lambda r: r)\ndef f(x):\n    if x: return {[1]: 2}\n    if x > 1: return {[1, 2]}\n    if x > 2: return {{}: 1}\n    return {(1, [2]): 3}\n\n@deal.pre(lambda a: a)\ndef g(a): return a\n\n@deal.pure\ndef h():\n    return g({[1]: 2}) or g({[1]})\n',
     'import deal\n\n@deal.has()\ndef f():\n    n = 0\n    def inc():\n        nonlocal n\n        n += 1\n    inc()\n    return n\n\ndef g():\n    k = 0\n    def h():\n        nonlocal k\n        k = 1\n    h()\n\n@deal.pure\ndef p():\n    global Z\n    g()\n',
     'import deal\n\n@deal.post(lambda r: bool(r))\ndef f(x):\n    if x: return {}\n    return set()\n\n@deal.pre(lambda s: len(s) > 5)\ndef g(s):\n    return s\n\n@deal.pure\ndef h():\n    assert {}\n    return g("{:d}") + g("{0}{x}")\n',
+    'import deal\n\n@deal.example(lambda: f(**{"a": 1}) == 1)\n@deal.example(lambda: f(*[1]) == 1)\n@deal.pre(lambda a: a > 0)\ndef f(a):\n    return a\n',
+    'import deal\n\n@deal.safe\ndef f():\n    assert 0x' + 'f' * 5000 + '\n    return 0o' + '7' * 6000 + '\n',
+    'import deal\n\ninherit = deal.inherit\n\nclass A:\n    @deal.pre(lambda self, x: x > 0)\n    def m(self, x):\n        return x\n\nclass B(A):\n    @deal.chain(deal.inherit, deal.safe)\n    def m(self, x):\n        return x\n\nclass C(A):\n    @inherit\n    def m(self, x):\n        return x\n\n@deal.chain(deal.inherit, deal.pure)\ndef loose(x):\n    return x\n\n@inherit\ndef loose2(x):\n    return x\n',
     'import deal\n\n@deal.raises()\ndef f():\n    raise\n    raise ValueError()()\n    raise (ValueError)\n    raise x.y.Z\n    raise lower()\n',
 ]
 
